@@ -86,7 +86,8 @@ Acts == Common \cup Specific
 
 \* ---- merge schedules: every order in which k chunks can be combined pairwise -------------------
 Mode == EnvStr("ACC_MODE", "programs")
-TreeChunks == CASE Fl = "harm" -> << <<1, 2, 2>>, <<>>, <<3>>, <<1, 1, 1, 1, 1, 1, 1, 3>>, <<2, 1>> >>
+TreeChunks == CASE Fl = "arith" -> << <<3, 1>>, <<>>, <<1>>, <<1, 3, 3, 1, 1, 1, 3, 1>>, <<3, -3>> >>       \* a non-empty chunk that sums to 0
+                [] Fl = "harm" -> << <<1, 2, 2>>, <<>>, <<3>>, <<1, 1, 1, 1, 1, 1, 1, 3>>, <<2, 1>> >>
                 [] Fl = "prop" -> << <<1, 0, 1>>, <<>>, <<0>>, <<1, 1, 1, 0, 1, 1, 0, 1>>, <<0, 0>> >>
                 [] OTHER -> << <<3, 1>>, <<>>, <<1>>, <<1, 3, 3, 1, 1, 1, 3, 1>>, <<3, 3>> >>
 NK == EnvInt("ACC_CHUNKS", 4)
